@@ -60,16 +60,21 @@ PURE_TRAITS = {'dasp_frame::Frame', 'dasp_sample::Sample', 'dasp_sample::SignedS
                'dasp_window::Window'}
 
 
+INT_TYPES = ('usize', 'isize', 'u8', 'u16', 'u32', 'u64', 'u128', 'i8', 'i16', 'i32', 'i64', 'i128')
+
 # core functions every engine sees through (bodies exported by the extractor): pure control-flow sugar
 TRANSPARENT_CORE = ('core::bool::<impl bool>::then', 'core::convert::identity',
                     # `x.checked_sub(1)?` is `if x < 1 { return None }; x - 1`
-                    '<core::option::Option<T> as core::ops::try_trait::', 'core::num::<impl usize>::checked_sub', 'core::num::<impl usize>::checked_add')
+                    '<core::option::Option<T> as core::ops::try_trait::', 'core::num::<impl usize>::checked_sub', 'core::num::<impl usize>::checked_add',
+                    # `o.map_or(d, f)` is `match o { Some(x) => f(x), None => d }`, likewise is_some_and / is_none_or
+                    'core::option::Option::<T>::map_or', 'core::option::Option::<T>::is_some_and', 'core::option::Option::<T>::is_none_or')
 
 
 class Policy:
     """What to inline, what to keep as an opaque effect, what is pure."""
 
-    def __init__(self, stop=(), pure_extra=(), inline=True, max_depth=6, no_inline_prefixes=(), stop_trait_methods=(), inline_core=False, subst_types=False, pure_ref_values=False, typed_floats=False, record_ref_values=False, own_body_only=False):
+    def __init__(self, stop=(), pure_extra=(), inline=True, max_depth=6, no_inline_prefixes=(), stop_trait_methods=(), inline_core=False, subst_types=False, pure_ref_values=False, typed_floats=False, record_ref_values=False, own_body_only=False, transparent=()):
+        self.transparent = tuple(transparent)   # further core functions this engine sees through (bodies exported by the extractor), chosen per rule
         self.own_body_only = own_body_only    # keep every call of a workspace function as an event (closures and core combinators are still seen through)
         self.typed_floats = typed_floats      # float comparisons / arithmetic get distinct operator names (`Lt.f`): NaN breaks the integer laws
         self.record_ref_values = record_ref_values  # an opaque call given `&x` sees the value of x at the call: record it with the event
@@ -450,6 +455,15 @@ class Engine:
             return ('len', a)
         return ('un', op, a)
 
+    def rvalue_cast(self, kind, v, ty):
+        if v[0] == 'int' and kind == 'IntToInt':
+            t = self.facts.ty(ty)
+            if t.get('k') == 'int':
+                w = t['bits']
+                lo = -(1 << (w - 1)) if t['signed'] else 0
+                return ('int', (v[1] - lo) % (1 << w) + lo, ty)
+        return ('cast', kind, v, ty)
+
     def rvalue(self, st, frame, rv, body):
         k = rv[0]
         if k == 'use':
@@ -750,6 +764,22 @@ class Engine:
         if model is not None:
             yield from resume(st, model)
             return
+        if self.policy.transparent and callee['path'] in ('core::cmp::min', 'core::cmp::max', 'core::cmp::Ord::min', 'core::cmp::Ord::max') \
+                and callee['path'].startswith(self.policy.transparent) and len(args) == 2 and callee.get('args') and callee['args'][0] in INT_TYPES:
+            # min / max of two integers, for a rule that asked to see through them: one path per outcome
+            a, b = args
+            cond = self.binop('Le', a, b)
+            d = self.decide(st, cond)
+            is_min = callee['path'].endswith('min')
+            for truth in (True, False):
+                if d[0] == 'bool' and d[1] != truth:
+                    continue
+                st2 = st.clone() if d[0] != 'bool' else st
+                if d[0] != 'bool':
+                    self.learn(st2, cond, t_bool(truth))
+                    st2.conds.append((cond, t_bool(truth), t.get('l')))
+                yield from resume(st2, (a if truth else b) if is_min else (b if truth else a))
+            return
         target = None
         if res.get('hash'):
             target = self.facts.by_hash.get(res['hash'])
@@ -761,7 +791,7 @@ class Engine:
                 target = ext.get(res['hash'])
             if target is None and callee.get('trait') is None:
                 target = ext.get(callee['hash'])
-        if target is None and not self.policy.inline_core and rpath.startswith(TRANSPARENT_CORE):
+        if target is None and not self.policy.inline_core and (rpath.startswith(TRANSPARENT_CORE) or (self.policy.transparent and (rpath.startswith(self.policy.transparent) or callee['path'].startswith(self.policy.transparent)))):
             # spellings, not operations: `c.then(|| x)` is `if c { Some(x) } else { None }`
             target = getattr(self.facts, 'extern_by_hash', {}).get(res.get('hash') or callee['hash'])
         # closure values called through Fn* traits
@@ -787,6 +817,15 @@ class Engine:
                             pargs = [('refval', self.read(st, a[1])) if a[0] == 'ref' else a for a in spread] if self.policy.pure_ref_values else spread
                             yield from resume(st, ('app', cv[1], tuple(pargs), tuple(cv[3])))
                             return
+                    elif tr in self.facts.traits or tr.startswith('core::iter::traits::'):
+                        # any other trait method used as a value (`opt.map(Iterator::next)`): the call it denotes, as an event
+                        spread = list(args[1][2]) if (len(args) > 1 and args[1][0] == 'agg') else None
+                        if spread is not None:
+                            callee = {'path': cv[1], 'name': nm, 'trait': tr, 'args': list(cv[3]), 'hash': cv[2], 'krate': tr.split('::', 1)[0], 'kind': 'AssocFn'}
+                            args = spread
+                            res = {}
+                            rpath = cv[1]
+                            t = dict(t, args=[['other', 'spread']] * len(spread))      # (no operand types for the spread arguments: every reference may be written through)
                 target = None
         if target is not None and 'blocks' in target and target['hash'] not in stack and depth < self.policy.max_depth \
                 and self.policy.may_inline(callee, target):
@@ -960,6 +999,25 @@ class Engine:
             tys = callee.get('args') or []
             pointee = tys[1] if name == 'cast' and len(tys) > 1 else (tys[0] if tys else '_')
             return ('cast', 'PtrToPtr', args[0], '*%s %s' % (mut, pointee))
+        if name in ('from', 'into') and callee.get('trait') in ('core::convert::From', 'core::convert::Into') and len(args) == 1 and len(callee.get('args') or []) >= 2:
+            # the lossless conversions between primitive numbers are the `as` casts
+            targs = callee['args']
+            dst, src = (targs[0], targs[1]) if name == 'from' else (targs[1], targs[0])
+            if src in INT_TYPES and dst in INT_TYPES:
+                return self.rvalue_cast('IntToInt', args[0], dst)
+            if src in INT_TYPES and dst in ('f32', 'f64'):
+                return ('cast', 'IntToFloat', args[0], dst)
+            if src == 'f32' and dst == 'f64':
+                return ('cast', 'FloatToFloat', args[0], dst)
+            if src == 'bool' and dst in INT_TYPES:
+                return ('cast', 'IntToInt', args[0], dst)
+        if name == 'recip' and len(args) == 1 and p in ('core::f64::<impl f64>::recip', 'std::f64::<impl f64>::recip', 'core::f32::<impl f32>::recip', 'std::f32::<impl f32>::recip'):
+            # x.recip() is defined as 1.0 / x
+            one = ('float', 0x3FF0000000000000, 64) if 'f64' in p else ('float', 0x3F800000, 32)
+            return self.binop('Div.f' if self.policy.typed_floats else 'Div', one, args[0])
+        if name == 'midpoint' and len(args) == 2 and re.match(r'^core::num::<impl u(8|16|32|64|128|size)>::midpoint$', p):
+            # the overflow-free floor((a + b) / 2) of two unsigned integers, as a value
+            return self.binop('Shr', self.binop('Add', args[0], args[1]), ('int', 1, 'i32'))
         if p in ('core::ptr::from_mut', 'core::ptr::from_ref') and len(args) == 1:
             return args[0]          # `ptr::from_mut(r)` is `r as *mut _`: the same address (references and raw pointers share one term)
         if name == 'into_iter' and rpath == '<I as core::iter::traits::collect::IntoIterator>::into_iter':
